@@ -1,0 +1,12 @@
+//go:build verif
+
+// Contracts for package codec, checked by /verif/govc (comment-only; compiled only with -tags verif).
+package codec
+
+// ---- C19: raw protobuf field extraction never panics or hangs on untrusted bytes --------------------------------
+// the scan stays inside the buffer, every iteration consumes at least one byte, and no length read from the
+// bytes is used for slicing or allocation before it has been checked against the buffer
+//@ func GetRawProtoField
+//@   nopanic
+//@   loop 1 invariant[inbounds] 0 <= offset && offset <= len(protoBytes)
+//@   loop 1 decreases len(protoBytes) - offset
